@@ -19,7 +19,7 @@ git apply SEED/patch.diff || { echo "PATCH DOES NOT APPLY"; exit 2; }
 mv "$WT/SEED" "$STASH"
 go build ./... || { echo "DOES NOT COMPILE"; exit 2; }
 if [ $SKIP -eq 0 ]; then
-  if go test -vet=off -count=1 ./... >"$STASH/suite.log" 2>&1; then echo "suite with patch: PASS"; else echo "suite with patch: FAIL"; grep -E "^(FAIL|---)" "$STASH/suite.log" | head; fi
+  if go test -vet=off -count=1 -timeout 40m ./... >"$STASH/suite.log" 2>&1; then echo "suite with patch: PASS"; else echo "suite with patch: FAIL"; grep -E "^(FAIL|---)" "$STASH/suite.log" | head; fi
 fi
 mv "$STASH" "$WT/SEED"
 if [ -f SEED/demo/run.sh ]; then
